@@ -20,6 +20,13 @@ func TestChar(t *testing.T) {
 				V(L(S(P(0, 1, 1), P(2, 1, 3))), token.CHAR_LITERAL, "a"),
 			},
 		},
+		"can contain a newline": {
+			input: "`\n` 1",
+			want: []*token.Token{
+				V(L(S(P(0, 1, 1), P(2, 2, 1))), token.CHAR_LITERAL, "\n"),
+				V(L(S(P(4, 2, 3), P(4, 2, 3))), token.INT, "1"),
+			},
+		},
 		"can contain utf8 characters": {
 			input: "`ś`",
 			want: []*token.Token{
